@@ -134,7 +134,23 @@ def rule_a(ctx, cr):
     ctx.touch(st)
     ln = [c for c in st.calls_matching(r"HashMap::<K, V, S, A>::len$")]
     ins = [c for c in st.calls() if re.match(r"^mach::var::Var::insert_", c.name)]
-    okv = bool(ln) and bool(ins) and all(st.dominates(ln[0].bb, c.bb) for c in ins) and \
+    # every path to an insert_* either made the len() test or knows the key exists already
+    def reach_unchecked():
+        seen, todo = set(), [0]
+        while todo:
+            b = todo.pop()
+            if b in seen or (ln and b == ln[0].bb):
+                continue
+            seen.add(b)
+            ec = st.edge_conds(b)
+            for s_ in st.succ(b):
+                if any(c[0] == "eq" and "contains_key" in str(c[1]) and c[2] is True
+                       for c in ec.get(s_, ())):
+                    continue        # key already present: no growth on this edge
+                todo.append(s_)
+        return seen
+    unchecked = reach_unchecked()
+    okv = bool(ln) and bool(ins) and not any(c.bb in unchecked for c in ins) and \
         "OutOfMemory" in {c for _b, c, _s in st.error_codes()}
     ctx.check(okv, "C18.a", "Var::store/limit-before-insert", st.span,
               "the variable pool limit is tested before any insert_*",
